@@ -48,8 +48,10 @@ namespace pika {
         long const function_complete_flag_value = 0xc157'30e2;
         long const running_value = 0x7f07'25e3;
 
+        PIKA_VERIF_POINT("once.load", &flag, 0, 0);
         while (flag.status_.load(std::memory_order_acquire) != function_complete_flag_value)
         {
+            PIKA_VERIF_POINT("once.cas", &flag, 0, 0);
             long status = 0;
             if (flag.status_.compare_exchange_strong(status, running_value))
             {
@@ -57,19 +59,26 @@ namespace pika {
                 {
                     // reset event to ensure its usability in case the
                     // wrapped function was throwing an exception before
+                    PIKA_VERIF_POST("once.won", &flag, 0, 0);
+                    PIKA_VERIF_POINT("once.reset", &flag, 0, 0);
                     flag.event_.reset();
+                    PIKA_VERIF_POST("event.stored", &flag.event_, 0, 0);
 
                     PIKA_INVOKE(std::forward<F>(f), std::forward<Args>(args)...);
 
                     // set status to done, release waiting threads
+                    PIKA_VERIF_POINT("once.done", &flag, 0, 0);
                     flag.status_.store(function_complete_flag_value);
+                    PIKA_VERIF_POST("once.stored", &flag, 1, 0);
                     flag.event_.set();
                     break;
                 }
                 catch (...)
                 {
                     // reset status to initial, release waiting threads
+                    PIKA_VERIF_POINT("once.fail", &flag, 0, 0);
                     flag.status_.store(0);
+                    PIKA_VERIF_POST("once.stored", &flag, 0, 0);
                     flag.event_.set();
 
                     throw;
@@ -77,10 +86,12 @@ namespace pika {
             }
 
             // we're done if function was called
+            PIKA_VERIF_POST("once.lost", &flag, status == function_complete_flag_value ? 1 : 0, 0);
             if (status == function_complete_flag_value) break;
 
             // wait for the function finish executing
             flag.event_.wait();
+            PIKA_VERIF_POINT("once.load", &flag, 1, 0);
         }
     }
 }    // namespace pika
